@@ -528,14 +528,13 @@ func (p *Parser) parseComponentStmt() ast.Statement {
 		p.nextToken() // skip ")"
 		stmt.Slots = p.parseSlots()
 		hasSlots = true
-	} else if p.peekTokenIs(token.HTML) && isWhitespace(p.peekToken.Literal) {
+	} else if p.peekTokenIs(token.HTML) && isWhitespace(p.peekToken.Literal) && p.tokenAfterPeekIs(token.SLOT) {
+		// whitespace between ")" and the first slot is not a part of
+		// the page; whitespace that is not followed by a slot is text
 		p.nextToken() // skip ")"
-
-		if p.peekTokenIs(token.SLOT) {
-			p.nextToken() // skip whitespace
-			stmt.Slots = p.parseSlots()
-			hasSlots = true
-		}
+		p.nextToken() // skip whitespace
+		stmt.Slots = p.parseSlots()
+		hasSlots = true
 	}
 
 	// slots are followed by the "@end" of the component
@@ -552,6 +551,14 @@ func (p *Parser) parseComponentStmt() ast.Statement {
 	p.components = append(p.components, stmt)
 
 	return stmt
+}
+
+// tokenAfterPeekIs looks at the token that follows the
+// peek token without moving the parser or the lexer
+func (p *Parser) tokenAfterPeekIs(tok token.TokenType) bool {
+	ahead := *p.l
+
+	return ahead.NextToken().Type == tok
 }
 
 func (p *Parser) parseAliasPathShortcut(shortenTo string) string {
